@@ -489,7 +489,7 @@ hread!(c18_read_int, Int);
 hread!(c18_read_double, Double);
 // @obl harness=c18_read_bool id=C18.build_layout[read:Bool] tier=quick funcs="TupleRef::value_with,TupleRef::is_null_with,TupleRef::null_bitmap_with,TupleReader::check_null,Schema::value,DataTypeKind::deserialize" bounds="stage C of 3; schema BigInt|Bool,Bool; any 72-byte 8-aligned buffer, any bitmap byte, value index 0 or 1, any recorded cursors in 40..=56 (covers every layout of the family)" unwind=3
 hread!(c18_read_bool, Bool);
-// @obl harness=c18_read_key id=C18.build_layout[read:key BigInt] tier=quick funcs="TupleRef::key_with,Schema::key,DataTypeKind::deserialize" bounds="stage C of 3; schema BigInt|Int,Int; any 72-byte 8-aligned buffer, any recorded key cursor in 25..=40" unwind=3
+// @obl harness=c18_read_key id=C18.build_layout[read:key_BigInt] tier=quick funcs="TupleRef::key_with,Schema::key,DataTypeKind::deserialize" bounds="stage C of 3; schema BigInt|Int,Int; any 72-byte 8-aligned buffer, any recorded key cursor in 25..=40" unwind=3
 #[kani::proof]
 #[kani::unwind(3)]
 fn c18_read_key() {
@@ -508,7 +508,7 @@ fn c18_read_key() {
     assert!(okf(tr.key_with(1, &schema)).is_none(), "key_index_out_of_range_is_err");
     std::mem::forget(tr);
 }
-// @obl harness=c18_column_datatype id=C18.build_layout[column kind accessor] tier=quick funcs="Column::datatype,DataTypeKind::from_repr" bounds="the four kinds of the family + Blob + Null"
+// @obl harness=c18_column_datatype id=C18.build_layout[column_kind_accessor] tier=quick funcs="Column::datatype,DataTypeKind::from_repr" bounds="the four kinds of the family + Blob + Null"
 #[kani::proof]
 #[kani::unwind(3)]
 fn c18_column_datatype() {
@@ -621,21 +621,21 @@ fn trim_stage(in_gap: bool) {
     }
     std::mem::forget(t);
 }
-// @obl harness=c13_trim_horizon id=C13.trim_horizon[one delta] tier=quick funcs="Tuple::vaccum_with,TupleReader::parse_last_version,DeltaHeader::read_from,Payload::realloc,TupleReader::check_null,DataTypeKind::deserialize" bounds="schema Int|Int; any 64-byte tuple of the one-delta layout (all stamps and values symbolic), any horizon; delta xmin <= live xmin; EXCLUDES delta xmin < horizon <= live xmin (= c13_trim_horizon_gap)" assume="delta.xmin <= header.xmin (versions are created in transaction-id order)" stubs="Column::datatype -> Int (exact: all columns of the schema are Int, see c18_column_datatype)" unwind=2
+// @obl harness=c13_trim_horizon id=C13.trim_horizon[one_delta] tier=quick funcs="Tuple::vaccum_with,TupleReader::parse_last_version,DeltaHeader::read_from,Payload::realloc,TupleReader::check_null,DataTypeKind::deserialize" bounds="schema Int|Int; any 64-byte tuple of the one-delta layout (all stamps and values symbolic), any horizon; delta xmin <= live xmin; EXCLUDES delta xmin < horizon <= live xmin (= c13_trim_horizon_gap)" assume="delta.xmin <= header.xmin (versions are created in transaction-id order)" stubs="Column::datatype -> Int (exact: all columns of the schema are Int, see c18_column_datatype)" unwind=2
 #[kani::proof]
 #[kani::unwind(2)]
 #[kani::stub(crate::schema::base::Column::datatype, stub_dt_int)]
 fn c13_trim_horizon() {
     trim_stage(false);
 }
-// @obl harness=c13_trim_horizon_gap id=C13.trim_horizon[one delta/old xmin < horizon <= new xmin] tier=off funcs="Tuple::vaccum_with" bounds="as c13_trim_horizon, restricted to delta xmin < horizon <= live xmin" assume="delta.xmin <= header.xmin" stubs="Column::datatype -> Int (exact for this schema)" unwind=2
+// @obl harness=c13_trim_horizon_gap id=C13.trim_horizon[one_delta/old_xmin_<_horizon_<=_new_xmin] tier=off funcs="Tuple::vaccum_with" bounds="as c13_trim_horizon, restricted to delta xmin < horizon <= live xmin" assume="delta.xmin <= header.xmin" stubs="Column::datatype -> Int (exact for this schema)" unwind=2
 #[kani::proof]
 #[kani::unwind(2)]
 #[kani::stub(crate::schema::base::Column::datatype, stub_dt_int)]
 fn c13_trim_horizon_gap() {
     trim_stage(true);
 }
-// @obl harness=c13_trim_horizon_nostub id=C13.trim_horizon[one delta/real Column::datatype] tier=thorough funcs="Tuple::vaccum_with,TupleReader::parse_last_version,Column::datatype,DataTypeKind::deserialize" bounds="as c13_trim_horizon but without the Column::datatype stub (every kind arm explored)" assume="delta.xmin <= header.xmin" unwind=2
+// @obl harness=c13_trim_horizon_nostub id=C13.trim_horizon[one_delta/real_Column::datatype] tier=thorough funcs="Tuple::vaccum_with,TupleReader::parse_last_version,Column::datatype,DataTypeKind::deserialize" bounds="as c13_trim_horizon but without the Column::datatype stub (every kind arm explored)" assume="delta.xmin <= header.xmin" unwind=2
 #[kani::proof]
 #[kani::unwind(2)]
 fn c13_trim_horizon_nostub() {
@@ -703,7 +703,7 @@ fn update_write_stage(old_null: bool) {
 fn c18_update_write() {
     update_write_stage(false);
 }
-// @obl harness=c18_update_write_oldnull id=C18.update_roundtrip[write:Int|Int/old NULL] tier=thorough funcs="Tuple::calculate_new_tuple_size,Tuple::write_null_bitmap,Tuple::write_data_items,Tuple::write_non_null_items,Tuple::write_delta" bounds="as c18_update_write with the old value NULL (delta carries only the bitmap)" unwind=3
+// @obl harness=c18_update_write_oldnull id=C18.update_roundtrip[write:Int|Int/old_NULL] tier=thorough funcs="Tuple::calculate_new_tuple_size,Tuple::write_null_bitmap,Tuple::write_data_items,Tuple::write_non_null_items,Tuple::write_delta" bounds="as c18_update_write with the old value NULL (delta carries only the bitmap)" unwind=3
 #[kani::proof]
 #[kani::unwind(3)]
 fn c18_update_write_oldnull() {
@@ -786,21 +786,21 @@ fn update_read_live_stage() {
     assert!(okf(reader.parse_version(d, above)).is_none(), "version_above_current_is_err");
     std::mem::forget(t);
 }
-// @obl harness=c18_update_read_old id=C18.update_roundtrip[read old:Int|Int] tier=quick funcs="TupleReader::parse_version,TupleReader::parse_last_version,DeltaHeader::read_from,TupleRef::value_with,TupleRef::key_with,TupleReader::check_null" bounds="decoder half; any 64-byte tuple of the one-delta layout (old value non-NULL), delta version < header version; all stamps/values symbolic" stubs="Column::datatype -> Int (exact: all columns of the schema are Int, see c18_column_datatype)" unwind=2
+// @obl harness=c18_update_read_old id=C18.update_roundtrip[read_old:Int|Int] tier=quick funcs="TupleReader::parse_version,TupleReader::parse_last_version,DeltaHeader::read_from,TupleRef::value_with,TupleRef::key_with,TupleReader::check_null" bounds="decoder half; any 64-byte tuple of the one-delta layout (old value non-NULL), delta version < header version; all stamps/values symbolic" stubs="Column::datatype -> Int (exact: all columns of the schema are Int, see c18_column_datatype)" unwind=2
 #[kani::proof]
 #[kani::unwind(2)]
 #[kani::stub(crate::schema::base::Column::datatype, stub_dt_int)]
 fn c18_update_read_old() {
     update_read_stage(false);
 }
-// @obl harness=c18_update_read_oldnull id=C18.update_roundtrip[read old:Int|Int/old NULL] tier=thorough funcs="TupleReader::parse_version,TupleRef::value_with,TupleReader::check_null" bounds="decoder half; any 59-byte tuple of the one-delta layout whose old value is NULL" stubs="Column::datatype -> Int (exact for this schema)" unwind=2
+// @obl harness=c18_update_read_oldnull id=C18.update_roundtrip[read_old:Int|Int/old_NULL] tier=thorough funcs="TupleReader::parse_version,TupleRef::value_with,TupleReader::check_null" bounds="decoder half; any 59-byte tuple of the one-delta layout whose old value is NULL" stubs="Column::datatype -> Int (exact for this schema)" unwind=2
 #[kani::proof]
 #[kani::unwind(2)]
 #[kani::stub(crate::schema::base::Column::datatype, stub_dt_int)]
 fn c18_update_read_oldnull() {
     update_read_stage(true);
 }
-// @obl harness=c18_update_read_live id=C18.update_roundtrip[read live:Int|Int] tier=thorough funcs="TupleReader::parse_version,TupleReader::parse_last_version,TupleRef::value_with" bounds="decoder half; any 64-byte tuple of the one-delta layout: target = header version gives the new value, target > header version is an error" stubs="Column::datatype -> Int (exact for this schema)" unwind=2
+// @obl harness=c18_update_read_live id=C18.update_roundtrip[read_live:Int|Int] tier=thorough funcs="TupleReader::parse_version,TupleReader::parse_last_version,TupleRef::value_with" bounds="decoder half; any 64-byte tuple of the one-delta layout: target = header version gives the new value, target > header version is an error" stubs="Column::datatype -> Int (exact for this schema)" unwind=2
 #[kani::proof]
 #[kani::unwind(2)]
 #[kani::stub(crate::schema::base::Column::datatype, stub_dt_int)]
@@ -808,7 +808,7 @@ fn c18_update_read_live() {
     update_read_live_stage();
 }
 // root cause of c18_build_bool_int, isolated: Bool::write_to needs `writer[cursor..]` to be exactly one byte long
-// @obl harness=c18_bool_write_mid_buffer id=C18.value_codec[Bool/not the last byte] native=c18_bool_column_followed_by_value tier=quick funcs="DataType::write_to,Bool::write_to" bounds="8-byte buffer, any cursor < 7 (at least one byte follows the value), both values"
+// @obl harness=c18_bool_write_mid_buffer id=C18.value_codec[Bool/not_the_last_byte] native=c18_bool_column_followed_by_value tier=quick funcs="DataType::write_to,Bool::write_to" bounds="8-byte buffer, any cursor < 7 (at least one byte follows the value), both values"
 #[kani::proof]
 #[kani::unwind(3)]
 fn c18_bool_write_mid_buffer() {
